@@ -41,11 +41,21 @@ func (c *ATConn) PrepareContext(ctx context.Context, query string) (driver.Stmt,
 			c.txCtx = types.NewTxCtx()
 		}()
 	}
-	return c.Conn.PrepareContext(ctx, query)
+	stmt, err := c.Conn.PrepareContext(ctx, query)
+	if st, ok := stmt.(*Stmt); ok && err == nil {
+		st.owner = c
+	}
+	return stmt, err
 }
 
 // QueryContext
 func (c *ATConn) QueryContext(ctx context.Context, query string, args []driver.NamedValue) (driver.Rows, error) {
+	return c.queryWith(ctx, query, args, c.Conn.QueryContext)
+}
+
+// queryWith is QueryContext with the function that finally runs the business
+// statement on the target connection (a prepared statement runs itself)
+func (c *ATConn) queryWith(ctx context.Context, query string, args []driver.NamedValue, run queryRunner) (driver.Rows, error) {
 	if c.createOnceTxContext(ctx) {
 		defer func() {
 			c.txCtx = types.NewTxCtx()
@@ -70,7 +80,7 @@ func (c *ATConn) QueryContext(ctx context.Context, query string, args []driver.N
 
 		return executor.ExecWithNamedValue(ctx, execCtx,
 			func(ctx context.Context, query string, args []driver.NamedValue) (types.ExecResult, error) {
-				ret, err := c.Conn.QueryContext(ctx, query, args)
+				ret, err := run(ctx, query, args)
 				if err != nil {
 					return nil, err
 				}
